@@ -145,7 +145,7 @@ McCalls == UnaryCalls(0, {""})
 
 --------------------------------------------------------------------------
 Record(step) ==
-    /\ hist' = IF Mode = "mc" THEN hist ELSE Append(hist, step)
+    /\ hist' = IF Mode = "mc" THEN <<step>> ELSE Append(hist, step)
     /\ (Mode = "edges") => EmitTrace(hist')
     /\ (Mode = "tree" /\ Len(hist') = Depth) => EmitTrace(hist')
 Silent == hist' = hist
@@ -413,7 +413,7 @@ InFrame == (pc = "read" /\ inq # <<>>) => Head(inq).t = "req"
 NeverMisframed == pc = "dead" => (closed /\ inq = <<>>)
 
 Last == hist'[Len(hist')]
-IsCallStep == Len(hist') = Len(hist) + 1 /\ Last.a = "Call"
+IsCallStep == hist' # hist /\ Last.a = "Call"
 
 \* C02: exactly one complete response per call: an optional header stream then one data stream
 OneResponse ==
